@@ -77,7 +77,7 @@ class Ctx(object):
              "functions": list(functions), "cases": verdict.cases}
         if sample is not None:
             r["sample"] = sample
-        if verdict.status == "refuted" and kind == "obligation" and replay is not None:
+        if verdict.status == "refuted" and kind in ("obligation", "bounded") and replay is not None:
             try:
                 r["replay"] = jsonable(replay(verdict.witness))
             except Exception as e:  # replay harness failure is reported, not hidden
